@@ -380,7 +380,14 @@ RenameBelow(S, old, ret, nm) ==       \* new nodes below the returned node take 
         held == UNION {Reach(S.obj, y) : y \in old \cup (IF ret = None THEN {} ELSE {ret})}
         T == DropObjs(S, made \ held)
         keep == Names(T) \ old
-        path(x) == IF ret = None THEN x ELSE LET q == FindPath(T, ret, nm, x, Fuel(T)) IN IF q = "" THEN x ELSE q
+        (* below the returned node: its path from there; otherwise (an operation that failed half-way, or a node that
+           ended up elsewhere) its path from the first handle h1, h2, ... that reaches it, as the harness names it *)
+        RECURSIVE FromHandles(_, _)
+        FromHandles(x, i) == IF i > 64 THEN x
+                             ELSE IF H(i) \in old /\ FindPath(T, H(i), H(i), x, Fuel(T)) # "" THEN FindPath(T, H(i), H(i), x, Fuel(T))
+                             ELSE FromHandles(x, i + 1)
+        path(x) == LET q == IF ret = None THEN "" ELSE FindPath(T, ret, nm, x, Fuel(T)) IN
+                   IF q # "" THEN q ELSE FromHandles(x, 1)
         r(x) == IF x \in keep THEN path(x) ELSE x
         rk(c, f, v) == IF IsSeqKind(Kind[c][f]) THEN [j \in 1..Len(v) |-> r(v[j])] ELSE IF v = None THEN None ELSE r(v)
     IN [obj |-> [y \in {r(x) : x \in Names(T)} |->
